@@ -823,6 +823,17 @@ func (e *SpecEnv) evalCall(n *SCall) SVal {
 		h := vc.heapVar(vc.sorts.elemHeap(sl.Elem()))
 		return SVal{fmt.Sprintf("(forall ((r Int)) (! (=> (not (= r %s)) (= (select %s r) (select %s r))) :pattern ((select %s r))))",
 			sref(v.T), vc.get(e.st, h), vc.get(e.old, h), vc.get(e.st, h)), stBool}
+	case "frame_old_elems":
+		// frame_old_elems(s): every backing array (of s's element type) that existed at function
+		// entry is as it was at entry - the code has only written into arrays it allocated itself
+		v := arg(0)
+		sl, ok := goUnder(v.Ty).(*types.Slice)
+		if !ok || e.old == nil || e.st == nil || e.oldAlloc == "" {
+			specFail("frame_old_elems(slice) not available here")
+		}
+		h := vc.heapVar(vc.sorts.elemHeap(sl.Elem()))
+		return SVal{fmt.Sprintf("(forall ((r Int)) (! (=> (<= r %s) (= (select %s r) (select %s r))) :pattern ((select %s r))))",
+			e.oldAlloc, vc.get(e.st, h), vc.get(e.old, h), vc.get(e.st, h)), stBool}
 	case "isold":
 		// isold(p): reference p existed when the function was entered (or the call was made)
 		if e.oldAlloc == "" {
